@@ -9,7 +9,6 @@ import (
 
 	"go.dedis.ch/kyber/v4"
 	"go.dedis.ch/kyber/v4/group/edwards25519vartime"
-	"go.dedis.ch/kyber/v4/group/p256"
 
 	"verif/internal/groups"
 	"verif/internal/mon"
@@ -47,6 +46,8 @@ func c17Groups() []*groups.G {
 	}
 	extra("edvartime-full", edwards25519vartime.NewBlakeSHA256Ed25519(true))
 	extra("edvartime-ext", new(edwards25519vartime.ExtendedCurve).InitCurve(edwards25519vartime.ParamEd25519(), false))
+	// a residue group whose EmbedLen exceeds 255 (16-bit length field really used): quadratic residues of the 3072-bit MODP prime
+	all = append(all, groups.ResidueBig())
 	return all
 }
 
@@ -186,8 +187,8 @@ func (c *c17Ctx) model(g *groups.G, enc []byte) (checked, ok bool, why string) {
 			return true, false, "y >= p (coordinate not reduced)"
 		}
 		return true, ref.P256.OnCurve(x, y), "curve equation"
-	case name == "qr512":
-		grp := g.Grp.(*p256.QrSuite)
+	case c17IsResidue(g):
+		grp := c17PQ(g)
 		v := new(big.Int).SetBytes(enc)
 		if v.Sign() <= 0 || v.Cmp(grp.P) >= 0 {
 			return true, false, "value outside [1,P)"
@@ -420,7 +421,7 @@ func c17Layout(g *groups.G, enc []byte) (lenField int, data func(dl int) []byte,
 		}
 		x := enc[1:33]
 		return int(x[31]), func(dl int) []byte { return x[31-dl : 31] }, true
-	case g.Name == "qr512":
+	case c17IsResidue(g):
 		n := len(enc)
 		if n < 4 {
 			return 0, nil, false
@@ -434,3 +435,10 @@ func c17Layout(g *groups.G, enc []byte) (lenField int, data func(dl int) []byte,
 	}
 	return 0, nil, false
 }
+
+// c17IsResidue / c17PQ: the residue (Schnorr) groups - the shipped QR512 and the configurations built through SetParams.
+func c17IsResidue(g *groups.G) bool { P, _ := groups.ResiduePQ(g); return P != nil }
+
+type c17pq struct{ P, Q *big.Int }
+
+func c17PQ(g *groups.G) c17pq { P, Q := groups.ResiduePQ(g); return c17pq{P, Q} }
